@@ -147,7 +147,10 @@ def typecheck_programs(ctx):
     shapes = [("tuple", "pub struct X<'a, T>(pub T, pub &'a T);"), ("tuple_rev", "pub struct X<'a, T>(pub &'a T, pub T);"), ("named", "pub struct X<'a, T> { pub r: &'a T, pub v: T }"),
               ("enum_split", "pub enum X<'a, T> { A(Option<T>), B(&'a Option<T>), C { c: &'a T, d: T } }"), ("wide", "pub struct X<'a, T, U, const N: usize>(pub [T; N], pub U, pub &'a [T; N]);"),
               ("proj", "pub trait Fam { type Item; }\n#[derive_ex::derive_ex(TRAITS)]\npub struct X<'a, T: Fam>(pub T::Item, pub &'a T::Item, pub core::marker::PhantomData<T>);"),
-              ("unsized_tail", "pub struct X<'a, T: ?Sized>(pub &'a T, pub Box<T>);")]
+              ("unsized_tail", "pub struct X<'a, T: ?Sized>(pub &'a T, pub Box<T>);"),
+              # parameters DECLARED as raw identifiers (type and const): the default bounds must still see them in the field types
+              ("raw_params", "pub struct X<r#type, r#T, const r#N: usize> { pub value: Option<r#type>, pub pair: (r#T, T), pub arr: [u8; r#N], pub n: Vec<[r#type; N]> }"),
+              ("raw_params_enum", "pub enum X<r#fn, const r#match: usize> { A(Box<r#fn>), B { b: [r#fn; r#match] }, C }")]
     lists = ["Clone", "Debug", "PartialEq, Eq, PartialOrd, Ord, Hash", "Clone, Debug, PartialEq, Eq, PartialOrd, Ord, Hash"]
     progs = []
     for (sn, item) in shapes:
